@@ -967,7 +967,7 @@ static bool anchors() {
     if (!ok) { fprintf(stderr, "anchor: reference and OpenSSL disagree on %s\n", C.name.c_str()); return false; }
     with_ossl++;
   }
-  if (with_ossl < 12) { fprintf(stderr, "anchor: only %d table curves could be cross-checked with OpenSSL\n", with_ossl); return false; }
+  if (with_ossl < 20) { fprintf(stderr, "anchor: only %d table curves could be cross-checked with OpenSSL\n", with_ossl); return false; }
   for (auto &r : MID) {
     const Curve &C = r.c;
     mpz_class prod = 1;
@@ -1088,9 +1088,11 @@ int main(int argc, char **argv) {
   double tiny_entries = FXP_ALGO == A_BIN ? 0 : FXP_ALGO == A_PREDBL ? 8 : FXP_ALGO == A_COMB2 ? 2.0 * (1u << FXP_WIN) : (double)(1u << FXP_WIN);
   double tiny_case_s = (60 + tiny_entries + 0.3 * (UNK_ALGO >= A_SLWIN ? (double)(1u << UNK_WIN) : 0)) * 4e-6 * small + 60e-6;
   double mid_case_s = 300 * 3e-6 * small * (W <= 16 ? 3 : 1) + 60e-6;
-  auto cnt = [](double budget_s, double per_case, double lo, double hi) { return (int)std::max(lo, std::min(hi, budget_s / per_case)); };
+  // sanitised twins do not grow with the thorough tier (driver_main multiplies every count by --scale)
+  double damp = (ecs_info(ECS_INFO_SAN) && scale > 1.0) ? 1.0 / scale : 1.0;
+  auto cnt = [damp](double budget_s, double per_case, double lo, double hi) { return (int)std::max(8.0, damp * std::max(lo, std::min(hi, budget_s / per_case))); };
   int n_tiny = cnt(9.0, tiny_case_s, 1500, 21000), n_mid = cnt(5.0, mid_case_s, 600, 5500);
-  ENUM_STRIDE = small * (1 + tiny_entries / 300.0) > 6 ? 53 : 13;
+  ENUM_STRIDE = (small * (1 + tiny_entries / 300.0) > 6 || ecs_info(ECS_INFO_SAN)) ? 53 : 13;
   if (getenv("C02_SHOW_BUDGET"))
     fprintf(stderr, "budget: load_s=%.3f subset=%u case_mult_s=%.4f case_twin_s=%.4f pred_s=%.4f tiny_case_s=%.5f n_tiny=%d n_mid=%d stride=%u\n",
             load_s, BIG_SUBSET, case_mult_s, case_twin_s, pred_s, tiny_case_s, n_tiny, n_mid, ENUM_STRIDE);
@@ -1098,6 +1100,7 @@ int main(int argc, char **argv) {
   add_check<EcCase>("big_add", cnt(2.5, 12 * (aff_op + prj_op) + 0.002, 24, 400), 100, []() { return genBig(0); }, run_case);
   add_check<EcCase>("big_mult", cnt(7.0, case_mult_s + 0.004, 12, 260), 100, []() { return genBig(1); }, run_case);
   add_check<EcCase>("big_twin", cnt(4.0, case_twin_s + 0.006, 8, 140), 100, []() { return genBig(2); }, run_case);
+  n_tiny = (int)(n_tiny * damp); n_mid = (int)(n_mid * damp);
   add_check<EcCase>("mid_add", n_mid * 3 / 11, 100, []() { return genMid(0); }, run_case);
   add_check<EcCase>("mid_mult", n_mid * 5 / 11, 100, []() { return genMid(1); }, run_case);
   add_check<EcCase>("mid_twin", n_mid * 3 / 11, 100, []() { return genMid(2); }, run_case);
